@@ -76,3 +76,21 @@ def spectrum_mask(ny, nx, my, mx):
     okx = (np.abs(ix) < mx / 2.0) & (np.abs(ix) < nx / 2.0)
     oky = (np.abs(iy) < my / 2.0) & (np.abs(iy) < ny / 2.0)
     return oky[:, None] & okx[None, :]
+
+
+def surface_scales(setup, q0, **kw):
+    """(max|conc|, max|flx|) at the surface level of the same problem.
+
+    The rounding error of linear shooting is ~eps*e^G relative to the *surface* amplitude of a mode, not to the (possibly
+    much smaller) field at an upper level, so identity residuals are normalised by at least these."""
+    kw = dict(kw)
+    kw.pop("srf_bg_conc", None)
+    _, c, f = solve(setup, q0, 0, **kw)
+    return float(np.max(np.abs(c))), float(np.max(np.abs(f)))
+
+
+def surface_fields(setup, q0, **kw):
+    kw = dict(kw)
+    kw.pop("srf_bg_conc", None)
+    _, c, f = solve(setup, q0, 0, **kw)
+    return np.asarray(c), np.asarray(f)
